@@ -1,5 +1,6 @@
 import TongoProofs.Lemmas.HashmapEncode
 import TongoProofs.Lemmas.HashmapPut
+import TongoProofs.Lemmas.HashmapSigned
 /-! # Property C05 — dictionaries (Hashmap / HashmapE) preserve their key→value mapping
 
 Model: `TongoModel/Hashmap.lean` (mirror of tlb/hashmap.go after the repairs recorded in known_findings.txt).
@@ -162,6 +163,23 @@ theorem encode_order_independent (C : Codec V) (n : Nat) (lt : Key → Key → B
         rw [← h2] at hkv
         exact hw1 kv.1 (List.mem_map.mpr ⟨kv, hb.mem_iff.mpr hkv, rfl⟩)
       simp [marshalE, marshal, maxKeyLen_eq n _ (by simp) hwx, maxKeyLen_eq n _ (by simp) hwy, hsort]
+
+/-- Signed key types: `Put` keeps the slice in numeric order, i.e. the keys with the sign bit set (`neg`, ascending) before
+the others (`nonneg`, ascending). `encodeMap` applied directly to that slice order builds the same tree as on the bit
+order, so it decodes to the same entries listed in ascending key-bit order (`nonneg ++ neg`). This is why dictionaries
+built only by `Put` encoded correctly even before Marshal ordered the entries itself. -/
+theorem decode_encode_signed (C : Codec V) (pay : V → List Bool × List Cell) (n : Nat) (neg nonneg : List (Key × V))
+    (hneg : neg ≠ []) (hnn : nonneg ≠ [])
+    (h1 : ∀ kv ∈ neg, ∃ k', kv.1 = true :: k') (h0 : ∀ kv ∈ nonneg, ∃ k', kv.1 = false :: k')
+    (hw : ∀ kv ∈ neg ++ nonneg, kv.1.length = n) (hs1 : SortedKV neg) (hs0 : SortedKV nonneg)
+    (hfit : ∀ kv ∈ neg ++ nonneg, Fits C pay n kv.2) (hdec : DecodesPayload C pay) :
+    ∃ c, encodeMap C (n + 1) (neg ++ nonneg) (n : Int) = .ok c ∧ unmarshal C n c = .ok (nonneg ++ neg) := by
+  rw [encodeMap_signed_order C (n + 1) n neg nonneg hneg hnn h1 h0]
+  apply decode_encode_sorted C pay n (nonneg ++ neg) (by simp [hnn])
+  · intro kv hkv; exact hw kv (by simp at hkv ⊢; tauto)
+  · exact sortedKV_append_signed neg nonneg hs1 hs0 h1 h0
+  · intro kv hkv; exact hfit kv (by simp at hkv ⊢; tauto)
+  · exact hdec
 
 /-- lookups on a decoded dictionary agree with the mapping of the tree: `Get k` returns `v` exactly when `(k, v)` is an
 entry of the meaning (and `none` exactly when `k` is not a key) -/
